@@ -13,7 +13,7 @@ CHECKS = {
    "3/C09"),
  "C03": ("exploration",
    "exhaustive enumeration of bounded grammar classes through the real DeRemer-Pennello computation, every (state, reduction) lookahead set compared with canonical-LR(1)-merged-by-core sets; conflict warnings compared with reference conflict cells; lalr.Digraph on every relation over <=4 nodes against transitive closure",
-   "For every usable grammar of the classes and the separator families, every reduce lookahead set yaccgo attaches must equal the LALR(1) set by definition (LR(1) merge), and the warning lines must name exactly the cells with an unresolved conflict. The Digraph component is explored over all 2^(n*n) relations for n<=3 (quick) / n<=4 (thorough) with three base-set shapes (append-built, shared backing array).",
+   "For every usable grammar of the classes, the separator families and all 124 renamings of the nonterminals / named tokens of a fifteen-symbol calculator grammar (yaccgo numbers symbols by name), every reduce lookahead set yaccgo attaches must equal the LALR(1) set by definition (LR(1) merge), and the warning lines must name exactly the cells with an unresolved conflict. The Digraph component is explored over all 2^(n*n) relations for n<=3 (quick) / n<=4 (thorough) with three base-set shapes (append-built, shared backing array).",
    "Trusted: reference LR(1) construction; state matching by item set (C09). Needs hook VerifReduceLookaheads (build tag verif). The warning clause is not judged on grammars with a conflict cell of more than two candidates or a reduce/reduce pair where both rules carry precedence.",
    "3/C03"),
  "C12": ("exploration",
@@ -28,7 +28,7 @@ CHECKS = {
    "3/C01"),
  "C02": ("model_checking",
    "same explicit-state exploration restricted to grammars the reference classifies conflict-free LALR(1); oracle: every Earley-viable next token must be shifted/accepted",
-   "For every LALR(1) grammar of the classes (classification by the reference, never yaccgo's own opinion) and every viable prefix up to the bound, on dense and packed tables and on generated parsers.",
+   "For every LALR(1) grammar of the classes (classification by the reference, never yaccgo's own opinion) and every viable prefix up to the bound, on dense and packed tables and on generated parsers; when the rule list yaccgo works on differs from the file, its tables are still judged at token level against the language of the grammar as written.",
    "Trusted: reference LALR(1) classification (LR(1) merge), Earley recognizer. Bounds as C01.",
    "3/C02"),
  "C05": ("exploration",
@@ -47,12 +47,12 @@ CHECKS = {
    "Trusted: Earley viable-prefix oracle; abstract driver bound by conformance replays. Reduction loops of conflicting (e.g. cyclic) grammars are counted, not judged.",
    "3/C06"),
  "C07": ("model_checking",
-   "bounded exhaustive replay on compiled generated parsers: corpus grammars x union-field assignments x action shapes x all strings up to the bound; returned value compared with reference attribute evaluation over the parser's own derivation-checked reductions",
+   "bounded exhaustive replay on compiled generated parsers: corpus grammars x union-field assignments x action shapes (also: a nested parse started from inside every action) x all strings up to the bound; returned value compared with reference attribute evaluation over the parser's own derivation-checked reductions",
    "Harness-chosen actions make every stack slot and union field observable (token values encode character and position, rule values rule number and argument order). For every (grammar, tag assignment, action shape) and every accepted string the value returned by Parser() must equal bottom-up evaluation; Go (global packed, -o -u) and TypeScript.",
    "Trusted: combinators shared between generated code and reference (gen/rt), the derivation checker, the TypeScript type eraser. Tag assignments: all-string, all-int, each single symbol switched to int or untagged; not all 3^n assignments.",
    "3/C07"),
  "C08": ("model_checking",
-   "differential bounded exhaustive replay: every corpus grammar generated in all five variants (go, -u, -o, -o -u, typescript), compiled/loaded, all strings up to the bound run on each; verdict class, reduction sequence and value compared pairwise and with the model run",
+   "differential bounded exhaustive replay: every corpus grammar generated in all five variants (go, -u, -o, -o -u, typescript), compiled/loaded, all strings up to the bound run on each (also with rules that have no action block at all, and with a nested parse inside every action); verdict class, reduction sequence and value compared pairwise and with the model run",
    "All variants of one grammar must agree on every input up to the bound; each run is additionally compared with the abstract LR driver over yaccgo's tables (traces_validated).",
    "Trusted: Go toolchain, Node 20, the type eraser (logs every deleted span). The embedded template strings equal the .templ files on this tree; a Makefile regeneration is not exercised.",
    "3/C08"),
@@ -97,8 +97,8 @@ CHECKS = {
    "Failure = error return or panic of the generator. Non-terminating inputs are excluded here (C13). Faults attributable to the environment (unwritable path, full disk) are outside the statement.",
    "3/C19"),
  "C15": ("model_checking",
-   "(a) exhaustive enumeration of parse histories (all sequences of <=3 parses over <=8 inputs per parser, with re-initialisation / fresh contexts, Go and TypeScript) compared with the solo (model) result; (b) stateless model checking of the real generated -o parsers under a hand-written cooperative scheduler: 2-3 contexts in separate goroutines, scheduling points at every lexer fetch and semantic action, all schedules with <=2 preemptions (all interleavings for short pairs), deviating schedules replayed; (c) separate free-running -race pass of the same bodies on 8 goroutines",
-   "Every parse in every history and every schedule must give exactly the observation of that parse alone (verdict, reductions with fetch counts, value), also with actions that do not always assign $$ and on one global parser / one -o context re-initialised 12 000 times; a value returned by a parse must still read the same after the later parses of the history (the caller keeps the pointer); no data race between contexts.",
+   "(a) exhaustive enumeration of parse histories (all sequences of <=3 parses over <=8 inputs per parser, with re-initialisation / fresh contexts, Go and TypeScript) compared with the solo (model) result; (b) stateless model checking of the real generated -o parsers under a hand-written cooperative scheduler: 2-3 contexts in separate goroutines, scheduling points at every lexer fetch and semantic action, all schedules with <=2 preemptions (all interleavings for short pairs), deviating schedules replayed; (c) separate free-running -race pass of the same bodies on 8 goroutines, started behind a barrier in a process that has not parsed anything yet (lazily built shared state is still cold), the lexer hook yielding the processor",
+   "Every parse in every history and every schedule must give exactly the observation of that parse alone (verdict, reductions with fetch counts, value), also with actions that do not always assign $$, with a nested parse started from inside every action (PushContex/ParserInit/Parser/PopContex, a fresh context with -o), and on one global parser / one -o context re-initialised 12 000 times; a value returned by a parse must still read the same after the later parses of the history (the caller keeps the pointer); no data race between contexts.",
    "Scheduling points = the places where user code runs inside Parser(); unsynchronised accesses elsewhere are the race pass's job (cooperative hand-offs are happens-before edges). Bounds: 3 parses per history, 8 inputs of <=4 tokens, 2 preemptions, 3 contexts.",
    "3/C15"),
 }
